@@ -589,6 +589,17 @@ func (e *Exec) schedule() *G {
 					break
 				}
 			}
+			releaseStep := func() bool {
+				// a step trigger that can never be reached any more is released
+				for _, g := range e.ordered() {
+					if g.op.kind == opStep {
+						q = g
+						g.op.n = -1
+						return true
+					}
+				}
+				return false
+			}
 			if q != nil {
 				e.quiets++
 				T = append(T, transition{g: q})
@@ -599,18 +610,22 @@ func (e *Exec) schedule() *G {
 						min = t.when
 					}
 				}
-				if min < 0 {
-					e.reason = EndQuiescent
-					return nil
+				if min < 0 || (e.cfg.Horizon > 0 && min > e.cfg.Horizon) {
+					if releaseStep() {
+						T = append(T, transition{g: q})
+					} else if min < 0 {
+						e.reason = EndQuiescent
+						return nil
+					} else {
+						e.reason = EndHorizon
+						return nil
+					}
+				} else {
+					if min > e.now {
+						e.now = min
+					}
+					continue
 				}
-				if e.cfg.Horizon > 0 && min > e.cfg.Horizon {
-					e.reason = EndHorizon
-					return nil
-				}
-				if min > e.now {
-					e.now = min
-				}
-				continue
 			}
 		}
 		if e.steps >= e.cfg.MaxSteps {
@@ -796,13 +811,16 @@ func NewObj(name string) *Obj {
 }
 
 // WaitStep blocks the calling (world) goroutine until the global step counter
-// has reached j; the trigger then has priority over everything else.
-func WaitStep(j int) {
+// has reached j; the trigger then has priority over everything else. It
+// returns false if the execution became quiescent before step j was reached.
+func WaitStep(j int) bool {
 	e := cur
 	e.checkAbort()
 	g := e.running
-	g.op = &op{kind: opStep, name: "waitstep", site: "world", n: j}
+	o := &op{kind: opStep, name: "waitstep", site: "world", n: j}
+	g.op = o
 	e.block(g)
+	return o.n >= 0
 }
 
 // WaitQuiescent blocks the calling (world) goroutine until nothing else is
